@@ -179,6 +179,11 @@ def enum_manifests(seed):
             if s % 4 == 1:   # one name under two entry types: files/metadata.xml beside metadata.xml, a distfile called like a patch
                 names["files/metadata.xml"] = "aux copy"
                 names["files/fix.patch"] = "p" * 7
+            if s % 4 == 2:   # names that merely contain the words the scan leaves out as whole path components (dev-perl/Test-Manifest is a real package)
+                names["Test-Manifest-2.23.ebuild"] = "tm"
+                names["files/fix-Manifest.in.patch"] = "fm"
+                names["files/foo-CVS-keywords.patch"] = "cvs"
+                names["notes.svn.txt"] = "svn"
             blank = s % 5 == 4   # a name the whitespace separated format cannot carry: generation must refuse it, not write a broken file
             if blank:
                 names[rnd.choice(("files/a b.patch", "files/tab\there", "read me.txt"))] = "w"
